@@ -81,9 +81,11 @@ pub fn generate(out: &mut Out, seed: u64, thorough: bool, _outdir: &str) {
             2 => CropSpec::Fit(odd_f64(&mut rng, 1.0), odd_f64(&mut rng, 1.0)),
             _ => CropSpec::None,
         };
+        // NaN centerings stay in: C15 excludes them, C03 does not - `fit_into_destination(Some((NaN, _)))` is a call a safe caller
+        // can make, and it must end in Ok or a documented error (today: the NaN crop box is rejected as SrcCroppingError)
         if let CropSpec::Fit(x, y) = case.crop {
             if x.is_nan() || y.is_nan() {
-                case.crop = CropSpec::Fit(0.5, 0.5); // NaN centering is outside the property
+                out.count("fit:nan-centering");
             }
         }
         if sw > 0 && sh > 0 && rng.chance(1, 9) {
